@@ -415,9 +415,46 @@ theorem C11_notification_counterexample_guard_first :
   refine ⟨⟨_, rfl, rfl, rfl, rfl, fun h => ?_⟩, ⟨_, rfl, rfl⟩⟩
   exact h ⟨2, 0, [0]⟩ (by decide) (by decide)
 
+/-- Every close notification is honoured, however long earlier ones are still being handled:
+`GraceClose` of an old client can keep an `onPush` handler busy for up to `ClientIdleTimeout` (the
+old client's one-way requests are never answered), and the server may restart again meanwhile. In
+EVERY state — any number of handlers still inside `GraceClose` — a pending notification can be
+processed, and processing it switches to a fresh `TarsClient`; hence (`C11_after_notification_fresh_conn`)
+no later request goes to the client it was sent on. -/
+theorem C11_every_notification_switches (s : Tars.AdapterPush.State) (i g : Nat)
+    (h : s.inbox[i]? = some (g, .reconnect)) :
+    ∃ s', Tars.AdapterPush.step .reconnectFirst s (.recv i) = some s' ∧ s'.gen = s.gen + 1 ∧
+      g ∈ s'.noticed ∧ s'.handlers = s.handlers ++ [s.gen] :=
+  let ⟨s', h1, h2, h3, h4, _⟩ := Tars.AdapterPush.recv_reconnect_switches h
+  ⟨s', h1, h2, h3, h4⟩
+
+/-- non-vacuity: two graceful restarts in a row, the handler of the first still waiting in
+`GraceClose` (one-way requests 2 and 3 were never answered): the second notification switches
+again, request 5 goes to generation 2 -/
+example : ∃ s, Tars.AdapterPush.run .reconnectFirst
+    [.send 1, .send 2, .send 3, .pNotify 0, .recv 0, .send 4, .pNotify 1, .recv 0, .send 5] = some s ∧
+    s.handlers = [0, 1] ∧ s.sends.map (fun x => (x.id, x.gen)) = [(1, 0), (2, 0), (3, 0), (4, 1), (5, 2)] :=
+  ⟨_, rfl, rfl, rfl⟩
+
+/-- With a "handle one notification at a time" test-and-set around the reconnect branch, released
+only when the handler returns from `GraceClose`, the notification of the next restart is dropped
+while the first handler is still waiting: request 5 is handed to generation 1, whose connection the
+server has announced as closing. Once the first handler has returned the same schedule is fine. -/
+theorem C11_notification_counterexample_gated :
+    (∃ s, Tars.AdapterPush.run .casGated
+        [.send 1, .send 2, .send 3, .pNotify 0, .recv 0, .send 4, .pNotify 1, .recv 0, .send 5] = some s ∧
+      s.gen = 1 ∧ s.stopped = [0, 1] ∧ s.noticed = [0, 1] ∧
+      ¬ (∀ x ∈ s.sends, x.gen ∉ x.noticed)) ∧
+    (∃ s, Tars.AdapterPush.run .casGated
+        [.send 1, .pNotify 0, .recv 0, .graceDone 0, .send 4, .pNotify 1, .recv 0, .send 5] = some s ∧
+      s.gen = 2 ∧ ∀ x ∈ s.sends, x.gen ∉ x.noticed) := by
+  refine ⟨⟨_, rfl, rfl, rfl, rfl, fun h => ?_⟩, ⟨_, rfl, rfl, by decide⟩⟩
+  exact h ⟨5, 1, [0, 1]⟩ (by decide) (by decide)
+
 /-- The extractor records the order of the two tests in `onPush`
-(`Consts.adapterOnPushReconnectFirst`); when the `reconnectMsg` test comes first the theorem is
-about the function of the current tree. -/
+(`Consts.adapterOnPushReconnectFirst`), the number of `return`s in front of the switch and the
+number of test-and-set gates; when the `reconnectMsg` test comes first and there is neither, the
+theorem is about the function of the current tree. -/
 theorem C11_notification_current_tree (h : Tars.AdapterPush.treeVariant = .reconnectFirst)
     (acts : List Tars.AdapterPush.Action) (s : Tars.AdapterPush.State)
     (hrun : Tars.AdapterPush.run Tars.AdapterPush.treeVariant acts = some s) :
